@@ -98,7 +98,7 @@ func FinishVoid(fns ...func()) {
 // ForEach 加工所有生成的元素，但并不输出。
 func ForEach(generate GenerateFunc, mapper ForEachFunc, opts ...Option) {
 	options := buildOptions(opts...)
-	panicChan := &onceChan{channel: make(chan any)}
+	panicChan := newOnceChan()
 	source := buildSource(generate, panicChan)
 	collector := make(chan any)
 	done := make(chan lang.PlaceholderType)
@@ -121,6 +121,8 @@ func ForEach(generate GenerateFunc, mapper ForEachFunc, opts ...Option) {
 			panic(v)
 		case _, ok := <-collector:
 			if !ok {
+				// 管道已全部结束：尚未被接收的 panic 仍需在调用方重新抛出
+				panicChan.rethrow()
 				return
 			}
 		}
@@ -141,14 +143,14 @@ func MapReduceVoid(generate GenerateFunc, mapper MapperFunc, reducer VoidReducer
 
 // MapReduce 加工所有生成的元素，并聚合后输出。
 func MapReduce(generate GenerateFunc, mapper MapperFunc, reducer ReducerFunc, opts ...Option) (any, error) {
-	panicChan := &onceChan{channel: make(chan any)}
+	panicChan := newOnceChan()
 	source := buildSource(generate, panicChan)
 	return mapReduceWithPanicChan(source, panicChan, mapper, reducer, opts...)
 }
 
 // MapReduceChan 加工所有给定的源数据，并聚合输出。
 func MapReduceChan(source <-chan any, mapper MapperFunc, reducer ReducerFunc, opts ...Option) (any, error) {
-	panicChan := &onceChan{channel: make(chan any)}
+	panicChan := newOnceChan()
 	return mapReduceWithPanicChan(source, panicChan, mapper, reducer, opts...)
 }
 
@@ -181,6 +183,8 @@ func mapReduceWithPanicChan(source <-chan any, panicChan *onceChan, mapper Mappe
 		for range output {
 			panic("多次写入聚合器")
 		}
+		// output 已关闭：在结果被取走之后才发生（或尚未被接收）的 panic 仍需在调用方重新抛出
+		panicChan.rethrow()
 	}()
 
 	// collector 用于采集加工的数据，并在聚合器中消费
@@ -347,9 +351,24 @@ type onceChan struct {
 	wrote   int32
 }
 
+// newOnceChan 返回带 1 个缓冲的 onceChan：只会写入一次，
+// 因此即使调用方已不再接收（已取走结果、已取消或已返回），write 也不会阻塞。
+func newOnceChan() *onceChan {
+	return &onceChan{channel: make(chan any, 1)}
+}
+
 func (c *onceChan) write(v any) {
 	if atomic.CompareAndSwapInt32(&c.wrote, 0, 1) {
 		c.channel <- v
+	}
+}
+
+// rethrow 在调用方协程中重新抛出尚未被接收的 panic（若有）。
+func (c *onceChan) rethrow() {
+	select {
+	case v := <-c.channel:
+		panic(v)
+	default:
 	}
 }
 
